@@ -1,3 +1,363 @@
-"""Catalogue part C (format: entities.py, DSL: shapes.py)."""
+"""Catalogue part C (format: entities.py, DSL: shapes.py): protocol_profiles, protocol_media, protocol_messages.
+
+Message stanzas: what reaches the protocol layers is <message ...><proto [mediatype=..]>SERIALIZED e2e Message</proto></message>.
+The payload kinds below build the protobuf with the generated protobuf classes directly (not with the library's converter).
+Payload rule: the fields the converter reads/writes unconditionally for a content kind are always set (with non-default values),
+fields it guards with HasField / "is not None" are set sometimes.  That way parse -> serialise reproduces the very same bytes and
+proto2 "unset vs. explicitly set default" differences (which C10 deliberately treats as equal) do not show up here.
+"""
+import base64
+import os
+import tempfile
+
+from hypothesis import strategies as st
+
+from .. import compat  # noqa: F401  (must precede any yowsup / protobuf import)
 from .entities import recv, send, exclude
 from .shapes import *  # noqa: F401,F403
+from .shapes import Kind
+
+from yowsup.layers.protocol_messages.proto.e2e_pb2 import Message
+
+PROFILES = "yowsup.layers.protocol_profiles.protocolentities"
+MEDIA = "yowsup.layers.protocol_media.protocolentities"
+MESSAGES = "yowsup.layers.protocol_messages.protocolentities"
+HERE = "vlib.gen.entities_catalog_c"
+
+SERVER = CONST("s.whatsapp.net")
+
+# ------------------------------------------------------------------------------------------------ local kinds
+_digits5 = st.text(alphabet="0123456789", min_size=5, max_size=11)
+_path = st.text(alphabet="abcdefghijklmnopqrstuvwxyzABCDEFGHIJKLMNOPQRSTUVWXYZ0123456789-_", min_size=4, max_size=24)
+_url = st.builds(lambda h, p: "https://%s.whatsapp.net/d/%s.enc" % (h, p), st.sampled_from(["mmg", "mmg-fna", "mms884"]), _path)
+_ip = st.builds(lambda a, b, c, d: "%d.%d.%d.%d" % (a, b, c, d), st.integers(1, 223), st.integers(0, 255),
+                st.integers(0, 255), st.integers(1, 254))
+_b64hash = st.binary(min_size=32, max_size=32).map(lambda b: base64.b64encode(b).decode())
+
+URL = Kind("URL", _url)
+IP = Kind("IP", _ip)
+B64HASH = Kind("B64HASH", _b64hash)
+
+
+def PJID(prefix):
+    """user jid whose number starts with `prefix` (two digits): slots with different prefixes can never collide, which is
+    needed where the parser keys a dict by jid (the server does not repeat a jid inside one reply)"""
+    return Kind("PJID(%s)" % prefix, _digits5.map(lambda d: "%s%s@s.whatsapp.net" % (prefix, d)))
+
+
+# ------------------------------------------------------------------------------------------------ payload kinds
+_utext = st.text(min_size=1, max_size=20)                      # unicode without surrogates, as protobuf strings require
+_bin = st.binary(min_size=1, max_size=24)
+_u32 = st.integers(1, 2 ** 32 - 1)
+_f32 = st.floats(min_value=0.5, max_value=1000.0, width=32)
+_jid = JID.strategy
+
+
+def _maybe(s):
+    return st.one_of(st.none(), s)
+
+
+_dm = {"url": _url, "file_sha256": st.binary(min_size=32, max_size=32), "file_length": st.integers(1, 2 ** 40),
+       "media_key": st.binary(min_size=32, max_size=32)}
+
+
+def build_payload(field, values):
+    """serialized e2e Message with `field` (a sub-message name or "conversation") filled from `values` (None = leave unset)"""
+    m = Message()
+    if field == "conversation":
+        m.conversation = values
+        return m.SerializeToString()
+    sub = getattr(m, field)
+    sub.SetInParent()
+    for k, v in values.items():
+        if v is None:
+            continue
+        if k == "context_info":
+            sub.context_info.stanza_id = v["stanza_id"]
+            sub.context_info.participant = v["participant"]
+        else:
+            setattr(sub, k, v)
+    return m.SerializeToString()
+
+
+def _payload(name, field, always, sometimes=None):
+    spec = dict(always)
+    for k, s in (sometimes or {}).items():
+        spec[k] = _maybe(s)
+    return Kind(name, st.fixed_dictionaries(spec).map(lambda v, _f=field: build_payload(_f, v)), is_bytes=True)
+
+
+def _with(base, **more):
+    d = dict(base)
+    d.update(more)
+    return d
+
+
+PROTO_TEXT = Kind("PROTO_TEXT", _utext.map(lambda s: build_payload("conversation", s)), is_bytes=True)
+PROTO_EXTTEXT = _payload("PROTO_EXTTEXT", "extended_text_message", {"text": _utext},
+                         {"matched_text": _utext, "canonical_url": _url, "description": _utext, "title": _utext,
+                          "jpeg_thumbnail": _bin, "context_info": st.fixed_dictionaries({"stanza_id": ID.strategy, "participant": _jid})})
+PROTO_URL = _payload("PROTO_URL", "extended_text_message", {"text": _utext, "matched_text": _url, "canonical_url": _url},
+                     {"description": _utext, "title": _utext, "jpeg_thumbnail": _bin})
+PROTO_IMAGE = _payload("PROTO_IMAGE", "image_message",
+                       _with(_dm, mimetype=st.sampled_from(["image/jpeg", "image/png"]), width=_u32, height=_u32),
+                       {"caption": _utext, "jpeg_thumbnail": _bin,
+                        "context_info": st.fixed_dictionaries({"stanza_id": ID.strategy, "participant": _jid})})
+PROTO_AUDIO = _payload("PROTO_AUDIO", "audio_message",
+                       _with(_dm, mimetype=st.sampled_from(["audio/ogg; codecs=opus", "audio/mpeg", "audio/aac"]), seconds=_u32,
+                             ptt=st.booleans()),
+                       {"streaming_sidecar": _bin})
+# the video and sticker converters read every mapped field unconditionally, so all of them are always present (as in the fixture)
+PROTO_VIDEO = _payload("PROTO_VIDEO", "video_message",
+                       _with(_dm, mimetype=st.sampled_from(["video/mp4", "video/3gpp"]), width=_u32, height=_u32, seconds=_u32,
+                             gif_playback=st.booleans(), jpeg_thumbnail=_bin, gif_attribution=st.sampled_from([0, 1, 2]),
+                             caption=_utext, streaming_sidecar=_bin))
+PROTO_STICKER = _payload("PROTO_STICKER", "sticker_message",
+                         _with(_dm, mimetype=st.just("image/webp"), width=_u32, height=_u32, png_thumbnail=_bin))
+PROTO_DOCUMENT = _payload("PROTO_DOCUMENT", "document_message",
+                          _with(_dm, mimetype=st.sampled_from(["application/pdf", "text/plain"]), file_name=_utext),
+                          {"title": _utext, "page_count": _u32, "jpeg_thumbnail": _bin})
+PROTO_LOCATION = _payload("PROTO_LOCATION", "location_message",
+                          {"degrees_latitude": st.floats(min_value=-90, max_value=90),
+                           "degrees_longitude": st.floats(min_value=-180, max_value=180)},
+                          {"name": _utext, "address": _utext, "url": _url, "duration": _f32, "accuracy_in_meters": _u32,
+                           "speed_in_mps": _f32, "degrees_clockwise_from_magnetic_north": st.integers(1, 359),
+                           "jpeg_thumbnail": _bin})
+PROTO_CONTACT = _payload("PROTO_CONTACT", "contact_message",
+                         {"display_name": _utext,
+                          "vcard": _utext.map(lambda s: ("BEGIN:VCARD\nVERSION:3.0\nFN:%s\nEND:VCARD" % s).encode("utf-8"))},
+                         {"context_info": st.fixed_dictionaries({"stanza_id": ID.strategy, "participant": _jid})})
+
+
+def message_shape(mtype, payload, mediatype=None):
+    """incoming message stanza as it reaches the protocol layers (ProtomessageProtocolEntity docstring + fixtures + the attributes
+    MessageMetaAttributes.from_message_protocoltreenode reads).  participant is present on group messages, offline only on
+    messages that were queued while the client was away."""
+    return N("message", {"from": AJID, "id": ID, "t": TS, "type": CONST(mtype), "notify": TEXT,
+                         "participant": OPT(JID), "offline": OPT(WORD("0", "1"))},
+             children=[N("proto", {"mediatype": mediatype} if mediatype is not None else {}, data=payload)])
+
+
+# ------------------------------------------------------------------------------------------------ send factories
+# (send arguments must be JSON-able, the message constructors want attribute objects)
+def _meta(to, _id=None):
+    from yowsup.layers.protocol_messages.protocolentities.attributes.attributes_message_meta import MessageMetaAttributes
+    return MessageMetaAttributes(id=_id, recipient=to)
+
+
+def _dmattrs(mimetype, file_length, file_sha256, url, media_key):
+    from yowsup.layers.protocol_messages.protocolentities.attributes.attributes_downloadablemedia import \
+        DownloadableMediaMessageAttributes
+    return DownloadableMediaMessageAttributes(mimetype, file_length, file_sha256, url, media_key)
+
+
+def out_extendedtext(text, to, matched_text=None, canonical_url=None, description=None, title=None, jpeg_thumbnail=None, id=None):
+    from yowsup.layers.protocol_messages.protocolentities import ExtendedTextMessageProtocolEntity
+    from yowsup.layers.protocol_messages.protocolentities.attributes.attributes_extendedtext import ExtendedTextAttributes
+    return ExtendedTextMessageProtocolEntity(
+        ExtendedTextAttributes(text, matched_text, canonical_url, description, title, jpeg_thumbnail, None), _meta(to, id))
+
+
+def out_url(text, matched_text, canonical_url, to, description=None, title=None, jpeg_thumbnail=None, id=None):
+    from yowsup.layers.protocol_media.protocolentities import ExtendedTextMediaMessageProtocolEntity
+    from yowsup.layers.protocol_messages.protocolentities.attributes.attributes_extendedtext import ExtendedTextAttributes
+    return ExtendedTextMediaMessageProtocolEntity(
+        ExtendedTextAttributes(text, matched_text, canonical_url, description, title, jpeg_thumbnail, None), _meta(to, id))
+
+
+def out_image(mimetype, file_length, file_sha256, url, media_key, width, height, to, caption=None, jpeg_thumbnail=None, id=None):
+    from yowsup.layers.protocol_media.protocolentities import ImageDownloadableMediaMessageProtocolEntity
+    from yowsup.layers.protocol_messages.protocolentities.attributes.attributes_image import ImageAttributes
+    return ImageDownloadableMediaMessageProtocolEntity(
+        ImageAttributes(_dmattrs(mimetype, file_length, file_sha256, url, media_key), width, height, caption, jpeg_thumbnail),
+        _meta(to, id))
+
+
+def out_audio(mimetype, file_length, file_sha256, url, media_key, seconds, ptt, to, streaming_sidecar=None, id=None):
+    from yowsup.layers.protocol_media.protocolentities import AudioDownloadableMediaMessageProtocolEntity
+    from yowsup.layers.protocol_messages.protocolentities.attributes.attributes_audio import AudioAttributes
+    return AudioDownloadableMediaMessageProtocolEntity(
+        AudioAttributes(_dmattrs(mimetype, file_length, file_sha256, url, media_key), seconds, ptt, streaming_sidecar), _meta(to, id))
+
+
+def out_video(mimetype, file_length, file_sha256, url, media_key, width, height, seconds, to, gif_playback=None,
+              jpeg_thumbnail=None, gif_attribution=None, caption=None, streaming_sidecar=None, id=None):
+    from yowsup.layers.protocol_media.protocolentities import VideoDownloadableMediaMessageProtocolEntity
+    from yowsup.layers.protocol_messages.protocolentities.attributes.attributes_video import VideoAttributes
+    return VideoDownloadableMediaMessageProtocolEntity(
+        VideoAttributes(_dmattrs(mimetype, file_length, file_sha256, url, media_key), width, height, seconds, gif_playback,
+                        jpeg_thumbnail, gif_attribution, caption, streaming_sidecar), _meta(to, id))
+
+
+def out_document(mimetype, file_length, file_sha256, url, media_key, file_name, to, title=None, page_count=None,
+                 jpeg_thumbnail=None, id=None):
+    from yowsup.layers.protocol_media.protocolentities import DocumentDownloadableMediaMessageProtocolEntity
+    from yowsup.layers.protocol_messages.protocolentities.attributes.attributes_document import DocumentAttributes
+    return DocumentDownloadableMediaMessageProtocolEntity(
+        DocumentAttributes(_dmattrs(mimetype, file_length, file_sha256, url, media_key), file_name, file_length, title, page_count,
+                           jpeg_thumbnail), _meta(to, id))
+
+
+def out_sticker(mimetype, file_length, file_sha256, url, media_key, width, height, to, png_thumbnail=None, id=None):
+    from yowsup.layers.protocol_media.protocolentities import StickerDownloadableMediaMessageProtocolEntity
+    from yowsup.layers.protocol_messages.protocolentities.attributes.attributes_sticker import StickerAttributes
+    return StickerDownloadableMediaMessageProtocolEntity(
+        StickerAttributes(_dmattrs(mimetype, file_length, file_sha256, url, media_key), width, height, png_thumbnail), _meta(to, id))
+
+
+def out_location(degrees_latitude, degrees_longitude, to, name=None, address=None, url=None, jpeg_thumbnail=None, id=None):
+    from yowsup.layers.protocol_media.protocolentities import LocationMediaMessageProtocolEntity
+    from yowsup.layers.protocol_messages.protocolentities.attributes.attributes_location import LocationAttributes
+    return LocationMediaMessageProtocolEntity(
+        LocationAttributes(degrees_latitude, degrees_longitude, name, address, url, jpeg_thumbnail=jpeg_thumbnail), _meta(to, id))
+
+
+def out_contact(display_name, vcard, to, id=None):
+    from yowsup.layers.protocol_media.protocolentities import ContactMediaMessageProtocolEntity
+    from yowsup.layers.protocol_messages.protocolentities.attributes.attributes_contact import ContactAttributes
+    return ContactMediaMessageProtocolEntity(ContactAttributes(display_name, vcard), _meta(to, id))
+
+
+def request_upload_from_file(mediaType, content):
+    """the way the command line client builds the request: RequestUploadIqProtocolEntity(mediaType, filePath=path)"""
+    from yowsup.layers.protocol_media.protocolentities import RequestUploadIqProtocolEntity
+    fd, path = tempfile.mkstemp(prefix="c09_upload_")
+    try:
+        with os.fdopen(fd, "wb") as f:
+            f.write(content)
+        return RequestUploadIqProtocolEntity(mediaType, filePath=path)
+    finally:
+        os.unlink(path)
+
+
+UTEXT = Kind("UTEXT", _utext)
+LEN = Kind("LEN", st.integers(1, 2 ** 40))
+U32 = Kind("U32", _u32)
+LAT = Kind("LAT", st.floats(min_value=-90, max_value=90))
+LON = Kind("LON", st.floats(min_value=-180, max_value=180))
+VCARD = Kind("VCARD", _utext.map(lambda s: ("BEGIN:VCARD\nVERSION:3.0\nFN:%s\nEND:VCARD" % s).encode("utf-8")), is_bytes=True)
+DM_ARGS = [LEN, BYTES(32), OPT(URL), OPT(BYTES(32))]     # file_length, file_sha256, url, media_key (the latter two known after upload)
+
+# =============================================================================================== profiles
+recv(PROFILES + ":ResultStatusesIqProtocolEntity",
+     N("iq", {"type": CONST("result"), "from": SERVER, "id": ID},
+       children=[N("status", {}, children=[
+           CH(N("user", {"jid": PJID(p), "t": TS}, data=TEXTDATA), 0, 1) for p in ("49", "44", "20", "97")])]),
+     owner="profiles", module="profiles", route="reply", request="GetStatusesIqProtocolEntity",
+     notes="the parser keys a dict by jid, so every <user> slot draws from a disjoint jid range (no repeated jid in one reply)")
+send(PROFILES + ":GetStatusesIqProtocolEntity", [LIST(JID, 1, 4)], {"_id": OPT(ID)}, owner="profiles", module="profiles", route="app")
+send(PROFILES + ":SetStatusIqProtocolEntity", [ONEOF(TEXTDATA, TEXT)], {"_id": OPT(ID)}, owner="profiles", module="profiles",
+     route="app", notes="bytes is the documented form; the command line client still passes str (converted as Latin-1). "
+                        "Answered by a plain ResultIqProtocolEntity")
+
+recv(PROFILES + ":ResultGetPictureIqProtocolEntity",
+     N("iq", {"type": CONST("result"), "from": AJID, "id": ID},
+       children=[N("picture", {"type": WORD("image", "preview"), "id": ID}, data=BLOB1)]),
+     owner="profiles", module="profiles", route="reply", request="GetPictureIqProtocolEntity",
+     notes="the layer parses the answer to SetPictureIqProtocolEntity with this class too (that reply's shape is not documented)")
+send(PROFILES + ":GetPictureIqProtocolEntity", [AJID], {"preview": OPT(BOOL), "_id": OPT(ID)}, owner="profiles", module="profiles",
+     route="app")
+send(PROFILES + ":SetPictureIqProtocolEntity", [AJID, BLOB1, BLOB1], {"pictureId": OPT(TS), "_id": OPT(ID)}, owner="profiles",
+     module="profiles", route="app", notes="(jid, previewData, pictureData); own jid or a group jid")
+send(PROFILES + ":ListPicturesIqProtocolEntity", [JID, LIST(JID, 1, 4)], owner="profiles", module="profiles", route="app",
+     notes="no caller in the repository, but the profiles layer's send handler accepts it (xmlns w:profile:picture, type get)")
+
+recv(PROFILES + ":ResultPrivacyIqProtocolEntity",
+     N("iq", {"type": CONST("result"), "from": JID, "id": ID},
+       children=[N("privacy", {}, children=[
+           CH(N("category", {"name": CONST(n), "value": WORD("all", "contacts", "none")}), 0, 1)
+           for n in ("last", "status", "profile")])]),
+     owner="profiles", module="profiles", route="reply", request="GetPrivacyIqProtocolEntity",
+     notes="also the answer to SetPrivacyIqProtocolEntity; one <category> per name (dict keyed by name)")
+send(PROFILES + ":GetPrivacyIqProtocolEntity", [], owner="profiles", module="profiles", route="app")
+send(PROFILES + ":SetPrivacyIqProtocolEntity",
+     [WORD("all", "contacts", "none"),
+      OPT(ONEOF(WORD("status", "profile", "last"), LIST(WORD("status", "profile", "last"), 1, 3, unique=True)))],
+     owner="profiles", module="profiles", route="app", notes="(value, names); names None = all three")
+send(PROFILES + ":UnregisterIqProtocolEntity", [], owner="profiles", module="profiles", route="app",
+     notes="sent by the command line client's account delete; its iq xmlns attribute is None (the namespace sits on <remove>), "
+           "so neither the profiles nor the iq layer's send handler forwards it")
+
+# =============================================================================================== media
+send(MEDIA + ":RequestUploadIqProtocolEntity",
+     [WORD("image", "video", "audio", "document"), B64HASH, ONEOF(INT, COUNT), OPT(B64HASH)],
+     owner="media", module="media", route="app", notes="(mediaType, b64Hash, size, origHash)")
+send(HERE + ":request_upload_from_file", [WORD("image", "video", "audio", "document"), BLOB1],
+     owner="media", module="media", route="app", name="RequestUploadIqProtocolEntity_file",
+     notes="RequestUploadIqProtocolEntity(mediaType, filePath=...) as the command line client does; the factory writes the file")
+recv(MEDIA + ":ResultRequestUploadIqProtocolEntity",
+     N("iq", {"type": CONST("result"), "from": SERVER, "id": ID},
+       children=[ALT(N("encr_media", {"url": URL, "ip": OPT(IP), "resume": OPT(COUNT)}),
+                     N("duplicate", {"url": URL, "ip": OPT(IP)}))]),
+     owner="media", module="media", route="reply", request="RequestUploadIqProtocolEntity",
+     notes="no docstring: fixture (encr_media url+ip) plus the attributes the parser reads (resume; duplicate url/ip)")
+
+recv(MEDIA + ":MediaMessageProtocolEntity",
+     message_shape("media", PROTO_LOCATION, WORD("livelocation", "contact_array")),
+     owner="media", module="media", route="internal",
+     notes="only built for media types the layer does not support, to derive the receipt (id/from/participant); the payload "
+           "content is irrelevant to it, a payload the converter can represent is used so that the bytes can be compared")
+exclude(MEDIA + ":DownloadableMediaMessageProtocolEntity",
+        "abstract base of the image/audio/video/document/sticker entities (downloadablemedia_specific_attributes raises "
+        "NotImplementedError); no layer builds or sends it")
+
+recv(MEDIA + ":ImageDownloadableMediaMessageProtocolEntity", message_shape("media", PROTO_IMAGE, CONST("image")),
+     owner="media", module="media")
+recv(MEDIA + ":AudioDownloadableMediaMessageProtocolEntity", message_shape("media", PROTO_AUDIO, WORD("audio", "ptt")),
+     owner="media", module="media")
+recv(MEDIA + ":VideoDownloadableMediaMessageProtocolEntity", message_shape("media", PROTO_VIDEO, WORD("video", "gif")),
+     owner="media", module="media")
+recv(MEDIA + ":DocumentDownloadableMediaMessageProtocolEntity", message_shape("media", PROTO_DOCUMENT, CONST("document")),
+     owner="media", module="media")
+recv(MEDIA + ":StickerDownloadableMediaMessageProtocolEntity", message_shape("media", PROTO_STICKER, CONST("sticker")),
+     owner="media", module="media")
+recv(MEDIA + ":LocationMediaMessageProtocolEntity", message_shape("media", PROTO_LOCATION, CONST("location")),
+     owner="media", module="media")
+recv(MEDIA + ":ContactMediaMessageProtocolEntity", message_shape("media", PROTO_CONTACT, CONST("contact")),
+     owner="media", module="media")
+recv(MEDIA + ":ExtendedTextMediaMessageProtocolEntity", message_shape("media", PROTO_URL, CONST("url")),
+     owner="media", module="media")
+
+_SEND_NOTE = "constructed through a factory of this module (attribute objects are not JSON-able); the media layer's send handler " \
+             "forwards every entity of type media"
+send(HERE + ":out_image", [WORD("image/jpeg", "image/png")] + DM_ARGS + [U32, U32, AJID],
+     {"caption": OPT(UTEXT), "jpeg_thumbnail": OPT(BLOB1), "id": OPT(ID)},
+     owner="media", module="media", route="app", name="ImageDownloadableMediaMessageProtocolEntity_send", notes=_SEND_NOTE)
+send(HERE + ":out_audio", [WORD("audio/ogg; codecs=opus", "audio/mpeg")] + DM_ARGS + [U32, BOOL, AJID],
+     {"streaming_sidecar": OPT(BLOB1), "id": OPT(ID)},
+     owner="media", module="media", route="app", name="AudioDownloadableMediaMessageProtocolEntity_send", notes=_SEND_NOTE)
+send(HERE + ":out_video", [WORD("video/mp4", "video/3gpp")] + DM_ARGS + [U32, U32, U32, AJID],
+     {"gif_playback": OPT(BOOL), "jpeg_thumbnail": OPT(BLOB1), "gif_attribution": OPT(Kind("ENUM3", st.sampled_from([0, 1, 2]))),
+      "caption": OPT(UTEXT), "streaming_sidecar": OPT(BLOB1), "id": OPT(ID)},
+     owner="media", module="media", route="app", name="VideoDownloadableMediaMessageProtocolEntity_send", notes=_SEND_NOTE)
+send(HERE + ":out_document", [WORD("application/pdf", "text/plain")] + DM_ARGS + [UTEXT, AJID],
+     {"title": OPT(UTEXT), "page_count": OPT(U32), "jpeg_thumbnail": OPT(BLOB1), "id": OPT(ID)},
+     owner="media", module="media", route="app", name="DocumentDownloadableMediaMessageProtocolEntity_send", notes=_SEND_NOTE)
+send(HERE + ":out_sticker", [CONST("image/webp")] + DM_ARGS + [U32, U32, AJID], {"png_thumbnail": OPT(BLOB1), "id": OPT(ID)},
+     owner="media", module="media", route="app", name="StickerDownloadableMediaMessageProtocolEntity_send", notes=_SEND_NOTE)
+send(HERE + ":out_location", [LAT, LON, AJID],
+     {"name": OPT(UTEXT), "address": OPT(UTEXT), "url": OPT(URL), "jpeg_thumbnail": OPT(BLOB1), "id": OPT(ID)},
+     owner="media", module="media", route="app", name="LocationMediaMessageProtocolEntity_send", notes=_SEND_NOTE)
+send(HERE + ":out_contact", [UTEXT, VCARD, AJID], {"id": OPT(ID)},
+     owner="media", module="media", route="app", name="ContactMediaMessageProtocolEntity_send", notes=_SEND_NOTE)
+send(HERE + ":out_url", [UTEXT, URL, URL, AJID],
+     {"description": OPT(UTEXT), "title": OPT(UTEXT), "jpeg_thumbnail": OPT(BLOB1), "id": OPT(ID)},
+     owner="media", module="media", route="app", name="ExtendedTextMediaMessageProtocolEntity_send", notes=_SEND_NOTE)
+
+# =============================================================================================== messages
+recv(MESSAGES + ":TextMessageProtocolEntity", message_shape("text", PROTO_TEXT), owner="messages", module="basic",
+     notes="the messages layer builds it with the constructor from the parsed payload and "
+           "MessageMetaAttributes.from_message_protocoltreenode(node); fromProtocolTreeNode is the inherited protomessage parser")
+send(MESSAGES + ":TextMessageProtocolEntity", [UTEXT], {"to": AJID}, owner="messages", module="basic", route="app",
+     name="TextMessageProtocolEntity_send", notes="TextMessageProtocolEntity(body, to=jid) as both demo clients do")
+recv(MESSAGES + ":ExtendedTextMessageProtocolEntity", message_shape("text", PROTO_EXTTEXT), owner="messages", module="basic",
+     notes="built like the text entity (constructor in the layer); payload = extended_text_message without mediatype")
+send(HERE + ":out_extendedtext", [UTEXT, AJID],
+     {"matched_text": OPT(URL), "canonical_url": OPT(URL), "description": OPT(UTEXT), "title": OPT(UTEXT),
+      "jpeg_thumbnail": OPT(BLOB1), "id": OPT(ID)},
+     owner="messages", module="basic", route="app", name="ExtendedTextMessageProtocolEntity_send",
+     notes="factory; the messages layer's send handler forwards every entity of type text")
+send(MESSAGES + ":BroadcastTextMessage", [LIST(JID, 1, 4), UTEXT], owner="messages", module="basic", route="app",
+     notes="(jids, body) as the command line client does; its fromProtocolTreeNode is used by no layer")
+exclude(MESSAGES + ":MessageProtocolEntity",
+        "base class of all message entities (no payload); no layer builds or sends a bare instance")
